@@ -324,6 +324,23 @@ def format_exact_huffman_entry(prog, res):
     res.need(R, 5)
 
 
+def block_maximum_size_on_every_path(prog, res):
+    """T9 (sibling agreement): the one-shot frame decoder and the buffer-less core behind the streaming decoder give the same
+    verdict on a block that exceeds the frame's Block_Maximum_Size: both compare the block's size (regenerated size for RLE)
+    before decoding it and the decoded size after, and refuse with corruption_detected."""
+    R = "T9.block-maximum-size"
+    for name in ("ZSTD_decompressFrame", "ZSTD_decompressContinue"):
+        f = prog.fn(name)
+        gs = [g for g in guards.guard_sites(f) if "corruption_detected" in g.codes and "f:blockSizeMax" in (g.L | g.R) and g.op in (">", "<", ">=", "<=")]
+        rle_aware = any(any(y.get("k") == "cond" or y.get("n") == "bt_rle" for y in f.walk_deep(g.cond)) for g in gs if g.cond is not None)
+        res.check(len(gs) >= 2, R, name + ":before-and-after", f.loc, "%d comparisons with blockSizeMax ending in corruption_detected" % len(gs),
+                  "%s compares blocks with Block_Maximum_Size %d time(s) (needs the block size before decoding and the decoded size after): an oversized "
+                  "block is accepted on this path and refused on the sibling path, and ZSTD_decompressBound() under-estimates" % (name, len(gs)))
+        res.check(rle_aware, R, name + ":rle-by-regenerated-size", f.loc, "an RLE block is bounded by its regenerated size",
+                  "%s bounds an RLE block by its stored size (always 1) instead of its regenerated size" % name)
+    res.need(R, 4)
+
+
 def run(tier):
     res = Result("C04", tier)
     tus, info = extract(["decompress", "common", "compress"])
@@ -337,6 +354,7 @@ def run(tier):
     output_limit_selection(prog, res)
     x2_fast_loop_bound(prog, res)
     format_exact_huffman_entry(prog, res)
+    block_maximum_size_on_every_path(prog, res)
     return res.finish(
         explanation="The 160 cells of LL/OF/ML_defaultDTable are compared with the table obtained by running the "
                     "format document's construction algorithm (re-implemented in the checker from "
